@@ -110,7 +110,7 @@ Proof.
 Qed.
 
 (* ---------- scalar writers: the latest of maximal priority ---------- *)
-Fixpoint lwin (a : Z * scalar) (ws : list (Z * scalar)) : Z * scalar :=
+Fixpoint lwin (a : Z * atom) (ws : list (Z * atom)) : Z * atom :=
   match ws with [] => a | b :: r => lwin (if fst a >? fst b then a else b) r end.
 
 Lemma lwin_split : forall ws a, exists pre post,
@@ -135,10 +135,10 @@ Proof.
 Qed.
 
 (* the scalar a stage writes at q, if any *)
-Definition wat (q : path) (d : pp) : list (Z * scalar) := match pget d q with Some (PPS p v) => [(p, v)] | _ => [] end.
+Definition wat (q : path) (d : pp) : list (Z * atom) := match pget d q with Some (PPS p v) => [(p, v)] | _ => [] end.
 Definition leafy (q : path) (d : pp) : Prop := match pget d q with Some (PPD _ _) => False | _ => True end.
 
-Lemma fold_wr_leaves q : forall ds (a : option (Z * scalar)),
+Lemma fold_wr_leaves q : forall ds (a : option (Z * atom)),
   Forall (leafy q) ds ->
   fold_left wr (map (fun d => pget d q) ds) (option_map (fun pv => PPS (fst pv) (snd pv)) a) =
   option_map (fun pv => PPS (fst pv) (snd pv))
